@@ -7,6 +7,7 @@ import AgeModel.Wire
 import AgeModel.File
 import AgeModel.Exec.FormatExec
 import AgeModel.Exec.StreamExec
+import AgeModel.Armor
 namespace AgeModel
 namespace Exec
 namespace File
@@ -103,6 +104,13 @@ def handle (op : String) (args : List String) : Option String :=
       | .ok f => "ok " ++ sum f
       | .error e => "err " ++ encErr e
     | _, _, _ => "bad-args"
+  | "fencfull", [tape, rs, pt] =>   -- the reference encoder's file, in full
+    some <| match unhex tape, parseList parseRecipient rs, unhex pt with
+    | some tape, some rs, some pt =>
+      match encryptFile concrete chunkSize tape rs pt with
+      | .ok f => "ok " ++ hexOrDash f
+      | .error e => "err " ++ encErr e
+    | _, _, _ => "bad-args"
   | "fdec", [ids, file] =>
     some <| match parseList parseIdentity ids, unhex file with
     | some ids, some file =>
@@ -123,6 +131,19 @@ def handle (op : String) (args : List String) : Option String :=
         let (out, o) := AgeModel.Stream.decFrom chacha chunkSize k true 0 payload (payload.length + 1)
         s!"ok consulted={c} {outcome o} out={sum out}"
     | _, _ => "bad-args"
+  | "afdec", [w, ids, text] =>   -- de-armor, then decrypt what the armored reader releases
+    some <| match nat? w, parseList parseIdentity ids, unhex text with
+    | some w, some ids, some text =>
+      let (bytes, ao) := AgeModel.Armor.read w false text
+      let srcFail := ao != AgeModel.Armor.AOut.eof
+      -- a header that cannot be completed because the armor failed is an error of Decrypt
+      let (r, c) := decryptInit concrete ids bytes
+      match r with
+      | .error e => s!"err {decErr e} consulted={c}"
+      | .ok (k, payload) =>
+        let (out, o) := AgeModel.Stream.decFrom chacha chunkSize k srcFail 0 payload (payload.length + 1)
+        s!"ok consulted={c} {outcome o} out={sum out}"
+    | _, _, _ => "bad-args"
   | "fhdr", [tape, rs] =>   -- header only: file key, stanzas, tape bytes consumed
     some <| match unhex tape, parseList parseRecipient rs with
     | some tape, some rs =>
